@@ -1,5 +1,5 @@
 // The Ante module: tables read off app/ante/ante.go, app/ante/handler_options.go and app/app.go, emitted as
-// Coq string constants (same extraction and the same string forms as tools/antelist and harness/c19_tables.go).
+// Coq string constants (the same extraction, in the same string forms, is compiled into the harness as harness/c19_extract.go).
 package main
 
 import (
